@@ -186,9 +186,9 @@ def nothingElseCleared (s : Step) (before after : Nat) : Bool :=
 /-- `no_undocumented_bit` -/
 def documentedOnly (f : Nat) : Bool := decide (f < 4096)
 
-/-- a border pixel rewritten by `mask_border` carries bit 0 only -/
+/-- image-border pixels carry bit 0 only, after every step; the other pixels change only by the step's own bits -/
 def stepOK (border : Bool) (s : Step) (before after : Nat) : Bool :=
-  if border && rewritesBorder s then after == leftNodataOrBorder
+  if border then after == leftNodataOrBorder
   else onlyOwnRaised s before after && nothingElseCleared s before after && documentedOnly after
 
 /-- all the steps of a run satisfy `stepOK` -/
@@ -199,7 +199,7 @@ def runOK (ops : Ops) (border : Bool) : List Step → Nat → Bool
 /-- the clauses that fail for an observed transition `before → after` of a pixel under step `s` -/
 def failingStepClauses (border : Bool) (s : Step) (before after : Nat) : List String :=
   let chk (name : String) (ok : Bool) : List String := if ok then [] else [name]
-  if border && rewritesBorder s then chk "border_bit0_only" (after == leftNodataOrBorder)
+  if border then chk "border_bit0_only" (after == leftNodataOrBorder)
   else
     chk "later_steps_own_bits" (onlyOwnRaised s before after)
     ++ chk "bits_independent" (nothingElseCleared s before after)
